@@ -158,7 +158,52 @@ def tree_crossover(h: Harness, rng):
                     [sx(gram.spec_sx(spec)), sx(a), sx(bb), sx(cc)], nontrivial=sx(a) != sx(bb))
 
 
+def tree_crossover_generations(h: Harness, rng):
+    """CONCRETE recursive start symbol (donor subtrees exist): crossover over several generations --
+    children that are themselves crossover results become parents.  Every child must be one parent
+    with one subtree (here: the root) replaced by a subtree of the other parent."""
+    for _ in range(h.n(25, 300)):
+        spec = gram.productive_spec(rng, max_classes=rng.choice([3, 4, 5]), opts={"float": False})
+        if not gram.concrete_recursive_start(spec, rng):
+            continue
+        b = gram.build(spec)
+        try:
+            g = b.extract()
+        except Exception:  # noqa: BLE001
+            continue
+        mind = g.get_min_tree_depth()
+        if mind >= 1000000:
+            continue
+        d = mind + rng.choice([2, 3])
+        src = ScriptedSource([rng.randrange(0, 1000) for _ in range(20000)])
+        with warnings.catch_warnings():
+            warnings.simplefilter("ignore")
+            rep = TreeBasedRepresentation(g, synth.make_decider("grow", d, src, g))
+            pool = []
+            for _ in range(4):
+                st, v = safe(lambda: rep.create_genotype(src))
+                if st == "ok":
+                    pool.append(v)
+            if len(pool) < 2:
+                continue
+            h.count("concrete-start-crossover-chains")
+            for gen in range(h.n(6, 12)):
+                p1, p2 = rng.choice(pool), rng.choice(pool)
+                st, cs = safe(lambda: rep.crossover(src, p1, p2))
+                if st != "ok":
+                    break
+                a, bb = gram.canon(p1, b), gram.canon(p2, b)
+                for c, (x, y) in ((cs[0], (a, bb)), (cs[1], (bb, a))):
+                    cc = gram.canon(c, b)
+                    h.holds("TreeBasedRepresentation.crossover", "donor-available-child-not-recombination", ["prop_recomb", x, y, cc],
+                            f"generation {gen}: child is not one parent with a subtree of the other (a donor of the start symbol exists): "
+                            f"child={sx(cc)[:120]}", [sx(gram.spec_sx(spec)), sx(x), sx(y), sx(cc)], nontrivial=sx(x) != sx(y))
+                    pool.append(c)
+                pool = pool[-8:]
+
+
 def run(h: Harness):
+    tree_crossover_generations(h, h.rng)
     linear_ops(h, h.rng)
     structured_ops(h, h.rng)
     dsge_ops(h, h.rng)
